@@ -138,12 +138,14 @@ Qed.
 Lemma sorted_copy_fixed_is_go_isort l : sorted_copy_fixed l = go_isort (fun x => x) 0 l.
 Proof. reflexivity. Qed.
 
+(* the length bound is not used by the proof (the model of insertion sort sorts any list); it
+   delimits where Go actually runs insertion sort *)
 Lemma full_to_config_deterministic_isort iter iter' m a b :
-  map_order iter -> map_order iter' -> fnodup a -> fperm a b ->
+  fsmall a -> map_order iter -> map_order iter' -> fnodup a -> fperm a b ->
   full_to_config go_sorter iter m a = full_to_config go_sorter iter' m b.
 Proof. intros. apply full_to_config_deterministic; auto using go_sorter_hsort. Qed.
 
 Lemma to_config_deterministic_isort {O} iter iter' (other : resources -> option O) vcfg r r' :
-  map_order iter -> map_order iter' -> nodup_names r -> perm_res r r' ->
+  rsmall r -> map_order iter -> map_order iter' -> nodup_names r -> perm_res r r' ->
   to_config go_sorter (cfg_for iter other vcfg) r = to_config go_sorter (cfg_for iter' other vcfg) r'.
 Proof. intros. apply to_config_deterministic; auto using go_sorter_hsort. Qed.
